@@ -1,4 +1,5 @@
-(* wire_check.ml — model-side checker of the `wire` engine (property C18).
+(* wire_check.ml — model-side checker of the `wire` engine (property C18; the
+   tablet-mode switch reader lines belong to property C12).
 
    Reads the case file written by `tm-harness wire` (real DevInputWriter::send
    and DevInputReader::next over pipes), and for every line
@@ -17,6 +18,13 @@
        libc::input_event are the bytes the specification gives the records
        (ASSUMPTION-FAIL otherwise: the layout assumed by model and spec is not
        the platform's).
+     - T / Y lines (real TabletModeSwitchReader::next, property C12): the answers are
+       compared with the extracted TabletWire.decode_tablet_run
+         DIFF class=TABLET      On/Off events returned by the switch reader differ
+       and judged by the extracted TabletWire.check_switch_reader (= the answer is
+       TabletWire.tablet_events_of of the records; theorem C12_switch_reader_exact):
+         MONITOR clause=C12.switch_reader
+       (also when a call panics, on T and Y lines: C12_switch_reader_never_panics).
    One SUMMARY line with counts; TABLE line about the key table vs the pinned
    kernel numbering; a few SAMPLE lines. *)
 
@@ -90,6 +98,24 @@ let model_read (bytes : int list) : bool * event list =
   let (evs, fin) = x_decode_run (List.map (fun b -> byte_n.(b)) bytes) in
   ((match fin with Drained -> false | Panicked -> true), evs)
 
+(* "OK On Off" / "PANIC On" *)
+let bool_of_tok (s : string) : bool =
+  match s with "On" -> true | "Off" -> false | _ -> failwith ("bad switch event: " ^ s)
+
+let parse_tablet_result (s : string) : bool * bool list =
+  match split_ws s with
+  | "OK" :: t -> (false, List.map bool_of_tok t)
+  | "PANIC" :: t -> (true, List.map bool_of_tok t)
+  | _ -> failwith ("bad switch reader result: " ^ s)
+
+let sw_str (l : bool list) : string = String.concat " " (List.map (fun b -> if b then "On" else "Off") l)
+
+let tablet_result_str (panicked, evs) = (if panicked then "PANIC" else "OK") ^ (if evs = [] then "" else " " ^ sw_str evs)
+
+let model_tablet_read (bytes : int list) : bool * bool list =
+  let (evs, fin) = x_decode_tablet_run (List.map (fun b -> byte_n.(b)) bytes) in
+  ((match fin with Drained -> false | Panicked -> true), evs)
+
 let raw_of_tok (s : string) : raw =
   match String.split_on_char ':' s with
   | [sec; usec; ty; code; v] ->
@@ -115,6 +141,8 @@ let () =
   let path = Sys.argv.(1) in
   let ic = open_in path in
   let cases = ref 0 and nw = ref 0 and nr = ref 0 and nx = ref 0 in
+  let nt = ref 0 and ny = ref 0 and tablet_records = ref 0 and tablet_events = ref 0 and tablet_skipped = ref 0 and tsamples = ref 0 in
+  let grid_single : (int * int * int, unit) Hashtbl.t = Hashtbl.create 512 in
   let diffs = ref 0 and hits = ref 0 and assumption_fails = ref 0 in
   let events_written = ref 0 and records_read = ref 0 and events_returned = ref 0 and foreign_skipped = ref 0 in
   let distinct : (string, unit) Hashtbl.t = Hashtbl.create 8192 in
@@ -226,6 +254,55 @@ let () =
               (* C18_reader_never_panics *)
               if rp then monitor "C18.reader" "X" ("bytes:" ^ fhex) "PANIC" "no panic"
             | _ -> failwith ("bad X line: " ^ clip line))
+         | 'T' ->
+           incr cases; incr nt;
+           (match split_fields line with
+            | [f0; fhex; fread] ->
+              let recs_s = String.trim (String.sub f0 1 (String.length f0 - 1)) in
+              let toks = split_ws recs_s in
+              let raws = List.map raw_of_tok toks in
+              tablet_records := !tablet_records + List.length raws;
+              note_case ("T " ^ recs_s) (raws <> []);
+              (match toks with
+               | [one] -> (match String.split_on_char ':' one with
+                           | [_; _; ty; code; v] -> Hashtbl.replace grid_single (int_of_string ty, int_of_string code, int_of_string v) ()
+                           | _ -> ())
+               | _ -> ());
+              let fed = bytes_of_hex fhex in
+              List.iter (fun r -> if not (x_raw_wf r) then failwith ("record out of range in: " ^ clip recs_s)) raws;
+              let spec_bytes = List.map int_of_n (x_raw_stream raws) in
+              if spec_bytes <> fed then begin
+                incr assumption_fails;
+                Printf.printf "ASSUMPTION-FAIL layout records=%s libc=%s spec=%s\n" (clip recs_s) (clip fhex) (clip (hex_of_bytes spec_bytes))
+              end;
+              let (rp, revs) = parse_tablet_result fread in
+              tablet_events := !tablet_events + List.length revs;
+              let (mp, mevs) = model_tablet_read fed in
+              if (rp, revs) <> (mp, mevs) then
+                diff "TABLET" "T" recs_s (tablet_result_str (rp, revs)) (tablet_result_str (mp, mevs));
+              (* the specification's judgement of the REAL reader's answer *)
+              let expected = x_tablet_events_of raws in
+              tablet_skipped := !tablet_skipped + (List.length raws - List.length expected);
+              if rp then monitor "C12.switch_reader" "T" recs_s ("PANIC " ^ sw_str revs) ("[" ^ sw_str expected ^ "]")
+              else if not (x_check_switch_reader raws revs) then
+                monitor "C12.switch_reader" "T" recs_s ("[" ^ sw_str revs ^ "]") ("[" ^ sw_str expected ^ "]");
+              if !nt > 700 && !tsamples < 2 && List.length raws > 3 && List.length raws < 9 && revs <> [] && (incr tsamples; true) then
+                samples := Printf.sprintf "switch records{%s} switch_reader_returns{%s}" recs_s (sw_str revs) :: !samples
+            | _ -> failwith ("bad T line: " ^ clip line))
+         | 'Y' ->
+           incr cases; incr ny;
+           (match split_fields line with
+            | [f0; fread] ->
+              let fhex = String.trim (String.sub f0 1 (String.length f0 - 1)) in
+              let fed = bytes_of_hex fhex in
+              note_case ("Y " ^ fhex) (fed <> []);
+              let (rp, revs) = parse_tablet_result fread in
+              let (mp, mevs) = model_tablet_read fed in
+              if (rp, revs) <> (mp, mevs) then
+                diff "TABLET" "Y" ("bytes:" ^ fhex) (tablet_result_str (rp, revs)) (tablet_result_str (mp, mevs));
+              (* C12_switch_reader_never_panics *)
+              if rp then monitor "C12.switch_reader" "Y" ("bytes:" ^ fhex) "PANIC" "no panic"
+            | _ -> failwith ("bad Y line: " ^ clip line))
          | _ -> ()
        end
      done
@@ -247,7 +324,13 @@ let () =
     (if x_table_ok then 1 else 0) (int_of_nat x_matched_count) (List.length codes)
     (String.concat "," (List.map string_of_chars x_unmatched_idents))
     (List.length missing) (List.length (List.sort_uniq compare foreign_single));
+  (* exhaustiveness over the switch reader's decision grid: every combination was fed as a single record *)
+  let grid_missing = ref 0 in
+  List.iter (fun t -> List.iter (fun c -> List.iter (fun v ->
+      if not (Hashtbl.mem grid_single (t, c, v)) then incr grid_missing)
+      [-1; 0; 1; 2; -2147483648; 2147483647]) [0; 1; 2; 5; 0xffff]) [0; 1; 2; 3; 4; 5; 0x11; 0x14; 0xffff];
+  Printf.printf "TABLETGRID missing=%d singles=%d\n" !grid_missing (Hashtbl.length grid_single);
   List.iter (fun s -> Printf.printf "SAMPLE %s\n" s) (List.rev !samples);
-  Printf.printf "SUMMARY cases=%d write=%d read=%d raw=%d distinct=%d nontrivial=%d events_written=%d records_read=%d events_returned=%d foreign_skipped=%d diffs=%d hits=%d assumption_fails=%d\n"
-    !cases !nw !nr !nx (Hashtbl.length distinct) !nontrivial !events_written !records_read !events_returned
-    !foreign_skipped !diffs !hits !assumption_fails
+  Printf.printf "SUMMARY cases=%d write=%d read=%d raw=%d tablet=%d tablet_raw=%d distinct=%d nontrivial=%d events_written=%d records_read=%d events_returned=%d foreign_skipped=%d tablet_records=%d tablet_events=%d tablet_skipped=%d diffs=%d hits=%d assumption_fails=%d\n"
+    !cases !nw !nr !nx !nt !ny (Hashtbl.length distinct) !nontrivial !events_written !records_read !events_returned
+    !foreign_skipped !tablet_records !tablet_events !tablet_skipped !diffs !hits !assumption_fails
